@@ -24,6 +24,12 @@ structure Flow (Op Res : Type) where
   offered : Op → List Nat
   taken : Op → Res → Option Nat
   seen : Op → Res → Option Nat
+  /-- the operation may remove arbitrarily many elements (`Reset`) -/
+  wipes : Op → Bool := fun _ => false
+  /-- the result claims that the container was empty -/
+  emptyRes : Op → Res → Bool := fun _ _ => false
+  /-- the operation may take an element out -/
+  mayTake : Op → Bool := fun _ => false
 
 structure FlowSt (Op : Type) where
   ops : List Op := []
